@@ -32,8 +32,11 @@ def update_current_library(oToi, lAllTokens, oTokenMap):
     iLineNumber += 1
     iEndIndex = oTokenMap.get_index_of_line(iLineNumber)
     lTokenIndex = oTokenMap.get_token_indexes_between_indexes(token.use_clause.library_name, iStartIndex, iEndIndex)
-    oToken = lAllTokens[lTokenIndex[0]]
-    oToi.set_meta_data("current_library", oToken.get_lower_value())
+    if len(lTokenIndex) == 0:
+        oToi.set_meta_data("current_library", None)
+    else:
+        oToken = lAllTokens[lTokenIndex[0]]
+        oToi.set_meta_data("current_library", oToken.get_lower_value())
 
 
 def get_list_of_indexes(lTokens, oTokenMap):
